@@ -627,6 +627,9 @@ func runBubble(t *testing.T, s *sched, lg *runLog, root string) {
 					byGID.Store(g, &opRun{ev: ev, force: o.Force, atHook: reached})
 					defer byGID.Delete(g)
 					<-gate
+					if o.Delay > 0 && !o.claimer() {
+						time.Sleep(time.Duration(o.Delay))
+					}
 					ev.NowStart = time.Now().UnixNano()
 					ev.Start = seq.Add(1)
 					d.exec(i, o, ev)
